@@ -65,7 +65,7 @@ def gen_poly(rng, labels, maxdeg=2, maxterms=4, coefs=(-3, -2, -1, 1, 2, 3), off
     return P
 
 
-SPECIAL_SHAPES = ["and", "sum_le_1", "unary", "or", "x_le_y"]
+SPECIAL_SHAPES = ["and", "sum_le_1", "unary", "or", "x_le_y", "knapsack", "knapsack"]
 
 
 def special_poly(rng, labels, shape):
@@ -83,6 +83,15 @@ def special_poly(rng, labels, shape):
     if shape == "unary" and len(ls) >= 2:                # P_wo_offset >= 0 with offset -k : unary slack when log_trick=False
         P = {(ls[0],): 1, (ls[1],): 2, (): -rng.choice([1, 2])}
         return P, "le"
+    if shape == "knapsack" and len(ls) >= 2:             # weighted sum within a capacity (weights above 1, capacity above the term count)
+        n = rng.randint(2, min(3, len(ls)))
+        w = [rng.choice([1, 2, 3, 4]) for _ in range(n)]
+        cap = rng.randint(1, min(sum(w), 8))
+        P = {(l,): wi for l, wi in zip(ls[:n], w)}
+        P[()] = -cap
+        if rng.random() < 0.35:
+            return {k: -v for k, v in P.items()}, "ge"
+        return P, rng.choice(["le", "le", "lt"])
     if shape == "or" and len(ls) >= 2:                   # 1 - x - y <= 0
         return {(ls[0],): -1, (ls[1],): -1, (): 1}, "le"
     if shape == "x_le_y" and len(ls) >= 2:               # x - y <= 0
